@@ -286,6 +286,18 @@ def r14_4(ctx, counts) -> RuleResult:
 def run(ctx) -> dict:
     counts: dict[str, int] = {}
     results = [r14_1(ctx, counts), r14_2(ctx, counts), r14_3(ctx, counts), r14_4(ctx, counts)]
+    # a name step of a generated path selects elements only (a PI whose target is the name of
+    # a sibling element must not be counted): the axis/name-test domain rule of C01
+    from .c01_paths import r01_6_names
+    r5 = r01_6_names(ctx, counts)
+    r5.title = 'NAME-TEST-KIND (R14.5 = R01.6(c)(d): name steps select by name and kind)'
+    results.append(r5)
+    # etree_iter_paths and node.path number siblings per level: an iterative walk keeps the
+    # per-level counters on its stack
+    from .c02_trees import r02_8
+    r6 = r02_8(ctx, counts)
+    r6.title = 'EXPLICIT-STACK-STATE-COMPLETE (R14.6 = R02.8)'
+    results.append(r6)
     return {
         'results': results, 'counts': counts,
         'explanation':
